@@ -934,7 +934,7 @@ class PortTransport(_RegHackMixin, _FullTransport, _PortTransportAbstractor):
                 _LOGGER.info("Rx: %s", raw_line)
 
             self._frame_read(
-                dtm.isoformat(timespec="milliseconds"), _normalise(_str(raw_line))
+                dtm.isoformat(timespec="microseconds"), _normalise(_str(raw_line))
             )
 
     @track_system_syncs
